@@ -79,6 +79,35 @@ def run(ctx):
         iter_protocol(ctx, crate, crs, e, tag)
         serde_shape(ctx, crate, crs, e, tag)
         chunk_math(ctx, crate, e, tag)
+        ctx.guard("grow-to-fit" + tag, grow_to_fit, ctx, crate, crs, e, tag)
+
+
+def grow_to_fit(ctx, crate, crs, e, tag):
+    """Mapping::insert grows the chunk table as a function of the chunk index it is about to store into: the new length's slice
+    contains that index (e.g. `chunk + 1`).  A growth policy that looks only at the current length (doubling) falls short for an
+    id far beyond the current capacity and the following `chunks[chunk]` panics (sparse / jumping ids)."""
+    R = "grow-to-fit" + tag
+    b = body_by_key(crate, M + "::insert")
+    if b is None:
+        ctx.ob(R, M + "::insert", "exists", False, "", "not found")
+        return
+    n = 0
+    for i, t in b.calls():
+        f = t.get("f")
+        if not f or f["name"] not in ("resize_with", "resize", "extend", "reserve", "resize_default") or len(t["args"]) < 2:
+            continue
+        lv = q.leaves(b, t["args"][0])
+        if not any(x.endswith("chunks") for x in lv if x.split(":", 1)[0] in ("field", "lfield")):
+            continue
+        if f["name"] == "reserve":
+            continue
+        n += 1
+        locs = q.slice_locals(b, t["args"][1])
+        ks = {str(kind(b, {"k": "copy", "p": {"l": l}}, e)) for l in locs}
+        ok = CHUNK_IDX in ks or str(CHUNK_IDX) in ks
+        ctx.ob(R, b.key, "new-length-covers-the-index", ok, where_call(b, i),
+               "the chunk table is grown to a length computed from the chunk index being stored (kinds in the length: %s)" % sorted(ks))
+    ctx.floor(R, "growth sites of Mapping.chunks in insert", n, 1)
 
 
 def ret_kind(b, e):
